@@ -1,5 +1,5 @@
 (* reads the same case lines as harness/c13.c and prints the same result lines,
-   followed by " | cb=<caller misuse count> hz=<hazard count> bad=<library bad count>" *)
+   followed by " | ok=<w_ok> cb=<caller misuse notes> hz=<hazard notes> bad=<library bad count>" *)
 open X_c13
 let gen_byte seed j = (seed + j * 131 + (j lsr 8) * 7) land 255
 let adler l =
@@ -60,15 +60,14 @@ let () = iter_lines (fun line ->
         | LBad (BadFreeHanded id) -> incr bad; Buffer.add_string b (Printf.sprintf "!fh%d " (int_of_z id))
         | LBad (BadOverrun (id, off)) -> incr bad; Buffer.add_string b (Printf.sprintf "!ov%d@%d STOP" (int_of_z id) (int_of_z off)); stop := true
         | LBad (BadOverRead (id, n)) -> incr bad; Buffer.add_string b (Printf.sprintf "!or%d:%d STOP" (int_of_z id) (int_of_z n)); stop := true
-        | LCBad CBadFree -> incr cb; Buffer.add_string b "?free "
-        | LCBad CBadIndex -> incr cb; Buffer.add_string b "?idx "
-        | LCBad _ -> incr cb
-        | LHaz _ -> incr hz
+        | LNote (NRecycled | NZeroReuse) -> incr hz
+        | LNote _ -> incr cb
         | LResult (st, id, sz, data) ->
             let k = (match !kinds with k :: t -> kinds := t; k | [] -> `C) in
             let ck = if st <> StOk then "0" else if k = `J then "ref" else string_of_int (adler (il data)) in
-            Buffer.add_string b (Printf.sprintf "r%s:%d:%d:%s " (st_name st) (int_of_z id) (int_of_z sz) ck)) log;
-      Printf.printf "%s | cb=%d hz=%d bad=%d\n" (Buffer.contents b) !cb !hz !bad
+            let szs = if st <> StOk && k = `J then "-" else string_of_int (int_of_z sz) in
+            Buffer.add_string b (Printf.sprintf "r%s:%d:%s:%s " (st_name st) (int_of_z id) szs ck)) log;
+      Printf.printf "%s | ok=%d cb=%d hz=%d bad=%d\n" (Buffer.contents b) (if w.w_ok then 1 else 0) !cb !hz !bad
   | [ "icc"; n ] -> Printf.printf "icc %d\n" (int_of_z (icc_bytes (z_of_int (int_of_string n))))
   | [ "bufsize"; w; h; s ] ->
       Printf.printf "bufsize %d\n" (int_of_z (tj3JPEGBufSize (z_of_int (int_of_string w)) (z_of_int (int_of_string h)) (z_of_int (int_of_string s))))
